@@ -244,6 +244,16 @@ impl<T: GseDecapMemory, C: CrcCalculator, MHEM: MandatoryHeaderExtensionManager>
         self.last_label = None;
     }
 
+    /// Gives a storage buffer back to the memory on an error path.
+    /// If the memory refuses it (e.g. its free list is full), the buffer is handed to the
+    /// caller inside the memory error instead of being lost.
+    fn give_back(&mut self, storage: Box<[u8]>, error: DecapError) -> DecapError {
+        match self.memory.provision_storage(storage) {
+            Ok(()) => error,
+            Err(err) => DecapError::ErrorMemory(err),
+        }
+    }
+
     /// GSE decapsulation of the payload from a buffer
     ///
     /// The function decap reads the buffer to extract a packet.
@@ -428,8 +438,7 @@ impl<T: GseDecapMemory, C: CrcCalculator, MHEM: MandatoryHeaderExtensionManager>
         // check buffer size
         if pdu_buffer_len + label_len + header_ext_len + PROTOCOL_LEN < gse_len {
             self.last_label = None;
-            self.memory.provision_storage(pdu_buffer).unwrap();
-            return Err((DecapError::ErrorSizePduBuffer, pkt_len));
+            return Err((self.give_back(pdu_buffer, DecapError::ErrorSizePduBuffer), pkt_len));
         }
         let calculed_pdu_len = gse_len - label_len - header_ext_len - PROTOCOL_LEN;
 
@@ -442,15 +451,24 @@ impl<T: GseDecapMemory, C: CrcCalculator, MHEM: MandatoryHeaderExtensionManager>
             LabelType::ReUse => match self.last_label {
                 Some(Label::Broadcast) => {
                     self.last_label = None;
-                    return Err((DecapError::ErrorLabelBroadcastSaved, pkt_len));
+                    return Err((
+                        self.give_back(pdu_buffer, DecapError::ErrorLabelBroadcastSaved),
+                        pkt_len,
+                    ));
                 }
                 Some(Label::ReUse) => {
                     self.last_label = None;
-                    return Err((DecapError::ErrorLabelReUseSaved, pkt_len));
+                    return Err((
+                        self.give_back(pdu_buffer, DecapError::ErrorLabelReUseSaved),
+                        pkt_len,
+                    ));
                 }
                 None => {
                     self.last_label = None;
-                    return Err((DecapError::ErrorNoLabelSaved, pkt_len));
+                    return Err((
+                        self.give_back(pdu_buffer, DecapError::ErrorNoLabelSaved),
+                        pkt_len,
+                    ));
                 }
                 _ => self.last_label.unwrap(),
             },
@@ -682,8 +700,7 @@ impl<T: GseDecapMemory, C: CrcCalculator, MHEM: MandatoryHeaderExtensionManager>
         let pdu_buffer_len = pdu_buffer.len();
         if pdu_buffer_len < calculed_pdu_len {
             self.last_label = None;
-            self.memory.provision_storage(pdu_buffer).unwrap();
-            return Err((DecapError::ErrorSizePduBuffer, pkt_len));
+            return Err((self.give_back(pdu_buffer, DecapError::ErrorSizePduBuffer), pkt_len));
         }
 
         // read pdu
@@ -733,8 +750,7 @@ impl<T: GseDecapMemory, C: CrcCalculator, MHEM: MandatoryHeaderExtensionManager>
         let pdu_buffer_len = pdu_buffer.len();
 
         if pdu_buffer_len < calculed_pdu_len {
-            self.memory.provision_storage(pdu).unwrap();
-            return Err((DecapError::ErrorSizePduBuffer, pkt_len));
+            return Err((self.give_back(pdu, DecapError::ErrorSizePduBuffer), pkt_len));
         }
         pdu_buffer[..calculed_pdu_len].copy_from_slice(&buffer[offset..offset + calculed_pdu_len]);
 
@@ -784,8 +800,7 @@ impl<T: GseDecapMemory, C: CrcCalculator, MHEM: MandatoryHeaderExtensionManager>
         let pdu_buffer_len = pdu_buffer.len();
 
         if pdu_buffer_len < calculed_pdu_len {
-            self.memory.provision_storage(pdu).unwrap();
-            return Err((DecapError::ErrorSizePduBuffer, pkt_len));
+            return Err((self.give_back(pdu, DecapError::ErrorSizePduBuffer), pkt_len));
         }
 
         pdu_buffer[..calculed_pdu_len].copy_from_slice(&buffer[offset..offset + calculed_pdu_len]);
@@ -813,8 +828,7 @@ impl<T: GseDecapMemory, C: CrcCalculator, MHEM: MandatoryHeaderExtensionManager>
 
         let total_len_received = (pdu_len + PROTOCOL_LEN + first_label_len) as u16;
         if decap_context.total_len != total_len_received {
-            self.memory.provision_storage(pdu).unwrap();
-            return Err((DecapError::ErrorTotalLength, pkt_len));
+            return Err((self.give_back(pdu, DecapError::ErrorTotalLength), pkt_len));
         }
 
         let calculted_crc = self.crc_calculator.calculate_crc32(
@@ -825,8 +839,7 @@ impl<T: GseDecapMemory, C: CrcCalculator, MHEM: MandatoryHeaderExtensionManager>
         );
 
         if calculted_crc != received_crc {
-            self.memory.provision_storage(pdu).unwrap();
-            return Err((DecapError::ErrorCrc, pkt_len));
+            return Err((self.give_back(pdu, DecapError::ErrorCrc), pkt_len));
         }
 
         Ok((DecapStatus::CompletedPkt(pdu, metadata), pkt_len))
